@@ -4,6 +4,8 @@
 //! Request:  <grammar> ntoks×cost | mincost nrules×ans | maxcost nrules×ans | minsent nrules×(ans) | minsents …
 //!   (cost answers carried in the request are validated by the driver: `V` lines)
 //! `I` line: `eps … first … follow … path …` — compared for equality with the driver's `S` line.
+//! `If` line: `eps … first … follow …` — compared with the driver's `Mf` line (faithful Lean models of
+//! the loops of `YaccFirsts::new` / `YaccFollows::new`).
 use crate::gen::grammar::{self, GenCfg};
 use crate::out::{guarded, join, Out};
 use crate::rng::Rng;
@@ -242,6 +244,9 @@ fn emit(out: &mut Out, text: &str, costs_in: Option<Vec<u8>>, rng: &mut Rng, kin
     );
     out.case("C17", id, &payload);
     out.imp(id, "I", &format!("eps {} first {} follow {} path {}", bits(&eps), bits(&first), bits(&follow), bits(&path)));
+    // the same FIRST/FOLLOW/epsilon bits again, for the comparison with the Lean MODEL of
+    // YaccFirsts::new / YaccFollows::new (driver line `Mf`; a difference there breaks the tie)
+    out.imp(id, "If", &format!("eps {} first {} follow {}", bits(&eps), bits(&first), bits(&follow)));
     if hfail.is_none() && g.firsts().firsts(g.start_rule_idx()).len() != nt {
         hfail = Some("firsts() vob has wrong length".to_string());
     }
